@@ -265,7 +265,7 @@ _doc_common = dict(
     required=["kind:null", "kind:one", "kind:many", "kind:ident", "kind:idents", "kind:errors", "coll:resources",
               "coll:soft", "coll:wrapcol", "impl:soft", "impl:wrap", "included", "attrs-exposed", "rel-data:absent",
               "rel-data:null", "rel-data:one", "rel-data:many", "include:added", "include:skipped", "include:resources",
-              "member-with-wider-type", "served-a-narrower-request-before", "while-others-marshal", "dupname:ok", "primary-cannot-be-encoded"],
+              "member-with-wider-type", "served-a-narrower-request-before", "while-others-marshal", "dupname:ok", "primary-cannot-be-encoded", "included-holds-a-primary-resource"],
     assumptions=["fixed two-type schema (t1: 2 attributes, to-one, to-many; t2: attribute, to-one), soft or struct-backed",
                  "documents are generated by the driver (seeded), TLC judges every recorded document",
                  "attribute values are representatives from the value tables; ids, prefixes and meta come from small "
